@@ -62,7 +62,8 @@ func main() {
 		rng.Shuffle(len(triples), func(i, j int) { triples[i], triples[j] = triples[j], triples[i] })
 		lists = append(lists, triples[:40]...)
 	}
-	lists = append(lists, []string{"S1"}, []string{"S2"}, []string{"U4", "X1"}, []string{"E1", "U4", "R4"}, []string{"R5"}, []string{"R6"}, []string{"X2", "R5", "R6"})
+	lists = append(lists, []string{"S1"}, []string{"S2"}, []string{"U4", "X1"}, []string{"E1", "U4", "R4"}, []string{"R5"}, []string{"R6"}, []string{"X2", "R5", "R6"},
+		[]string{"G1"}, []string{"G2"}, []string{"X4", "G1"}, []string{"G1", "E2"}, []string{"G2", "G1"}, []string{"U1", "G1", "U0"})
 	full := []string{"X1", "X2", "X3", "E1", "E2", "R1", "R2", "R3", "R4", "R5", "R6", "U0", "U1", "U2", "U3", "U4", "A1", "A2", "A3"}
 	for i := 0; i < r.Pick(12, 60); i++ {
 		n := 4 + rng.Intn(5)
@@ -148,8 +149,8 @@ func main() {
 func fillers(file []string) []age.Identity {
 	// identities that match no recipient of the file
 	in := map[string]bool{}
-	for _, n := range file {
-		in[n] = true
+	for _, p := range keys.Flatten(keys.Ps(file...)) {
+		in[p.Name] = true
 	}
 	var out []age.Identity
 	for _, n := range []string{"X4", "E3", "R2", "X3", "R3"} {
@@ -191,7 +192,7 @@ func runCase(r *mon.Run, idx int, c encCase) {
 	rng := mon.NewRNG(r.Seed, fmt.Sprintf("c01-ids-%d", idx))
 	seen := map[string]bool{}
 	big := c.length > 1<<20
-	for pi, p := range parties {
+	for pi, p := range keys.Flatten(parties) {
 		if p.Identity == nil || seen[p.Name] {
 			continue
 		}
